@@ -435,6 +435,25 @@ def obs_c10(o):
     lines = str(o.lattice).split('\n')[1:]
     if lines != [f'    {c}' for c in o.concepts]:
         per.append((natlist([3999]), natlist([]), natlist([])))
+    # the consequence clause on the real traversals (also after a traversal that was abandoned half-way):
+    # extent = object labels of the downset, intent = property labels of the upset, atoms = lattice atoms below
+    if o.n <= 150:
+        try:
+            for c in o.concepts:
+                _ = c in c.downset(), c in c.upset(), next(iter(c.upset())), any(True for _ in c.downset())
+            lattice_atoms = set(map(id, o.lattice.atoms))
+            for c in o.concepts:
+                down, up = list(c.downset()), list(c.upset())
+                if (sorted(x for d in down for x in d.objects) != sorted(c.extent)
+                        or sorted(x for u in up for x in u.properties) != sorted(c.intent)
+                        or [id(a) for a in c.atoms] != [id(d) for d in o.lattice.atoms if id(d) in set(map(id, down))]
+                        or any(id(a) not in lattice_atoms for a in c.atoms)):
+                    per.append((natlist([3999]), natlist([]), natlist([])))
+                    subs.append({'concept_extent': list(c.extent), 'label union over its traversals': 'differs from extent / intent / atoms'})
+                    break
+        except Exception as e:  # noqa: BLE001
+            per.append((natlist([3999]), natlist([]), natlist([])))
+            subs.append({'traversal raised': repr(e)})
     # copies of the lattice carry the same labelling
     if o.n <= 300:
         import copy
